@@ -42,7 +42,26 @@ def tr_ctap(log):
     return info
 
 
+AUTH_TRUSTED = COMMON_TRUSTED + [
+    "modelled by hand: Authenticator::{check_user, choose_algorithm, make_credential, get_assertion, get_info, make_extensions, get_extensions, make_hmac_secret, make_prf, get_prf}, calculate_hmac_secret, select_salts, CredentialIdLength::from, and the find/save/update/get_info behaviour of MemoryStore, Option<Passkey> and a reference store implementing the documented contract (Model/Authenticator.lean); each .await on the store or on user validation is an event of the trace",
+    "environment as parameters: user-validation configuration and answer, store kind/content/fault schedule, random draws (credential id, key pair, hmac secrets) read back from the implementation; ECDSA signing is not computed (the model yields the signed message and the signing key; the signature bytes are observed)",
+    "instrumented store / user-validation wrappers of the harness (env.rs, au.rs) are trusted to report calls truthfully",
+    "SHA-256/HMAC by Base/Sha256.lean (oracle; only the digest length is proved), CBOR COSE key encoding by Base/Cbor.lean",
+]
+
 PROPS = {
+    "C04": {
+        "modules": ["PasskeyVerif.Props.C04"],
+        "props_files": ["PasskeyVerif/Props/C04.lean"],
+        "translators": [tr_flags],
+        "harness": [["gen", "C04"]],
+        "exhaustive": True,
+        "trusted": AUTH_TRUSTED,
+        "assumptions": ["user validation answers as configured; the store performs each call atomically"],
+        "level_text": "Kernel-checked for every configuration, user-validation behaviour, store (any kind, content and fault schedule), draw and request — not only the finite product: a save/update/result occurs only after the user-validation step was asked with the requested options and consent was given; UP/UV of the returned authenticator data are exactly what was reported; the named consent errors are returned and leave the store untouched; while consent is missing the outcome is independent of the store; the credential shown is the one that signs. The model is tied to the code by the complete enumeration of the statement's product (2688 rows x present/absent) with byte-exact comparison of results, traces and stores, and the Spec is evaluated on the implementation's observations.",
+        "level_note": "Trusted: Lean kernel; axioms propext/Classical.choice/Quot.sound; the hand model of the authenticator (compared on the whole product); the instrumented mocks; Spec = the statement's clauses as predicates over (request, environment, observation).",
+        "rule": "complete enumeration: operation (2) x rk/up/uv (8) x verification capability (3) x presence capability (2) x user-validation answer (4 presence/verification results + 3 error codes) x pinAuth (2) x matching credential present/absent (2) = 2688 ceremonies on the contract store and the in-memory map.",
+    },
     "C13": {
         "modules": ["PasskeyVerif.Props.C13"],
         "props_files": ["PasskeyVerif/Props/C13.lean"],
